@@ -122,6 +122,10 @@ func isASCIIPlain(s string) bool {
 // numExpr renders an integer-typed expression whose value is n (n >= 0).
 func numExpr(r *Rng, n int64, depth int) string {
 	if depth <= 0 || r.Chance(0.4) {
+		if r.Chance(0.03) {
+			// a non-canonical spelling of the same integer
+			return pick(r, []string{"00", "0", "000"}) + strconv.FormatInt(n, 10)
+		}
 		return strconv.FormatInt(n, 10)
 	}
 	switch r.Intn(4) {
@@ -318,7 +322,7 @@ func genPutStmt(r *Rng, allowFail bool) HistStmt {
 		n = r.Range(7, 45) // longer than any batch size / small-slice special case
 	}
 	if r.Chance(0.003) {
-		n = pick(r, []int{255, 256, 257, 300, 400})
+		n = pick(r, []int{255, 256, 257, 300, 400, 1025, 1300})
 	}
 	h := HistStmt{Kind: "put", Mode: genMode(r), Extra: genPollPattern(r)}
 	for i := 0; i < n; i++ {
